@@ -47,6 +47,7 @@ def alpha_cases(ctx, alpha, exh_len, n_random, lo, hi, tols=(0, 1), tag='alpha')
     strs += gen.sizing_spacing_docs()
     strs += gen.definition_docs()
     strs += gen.verb_docs()
+    strs += gen.env_body_start_docs()
     cases = [(s, t, ()) for s in strs for t in tols]
     cases += [(s, tols[0], ()) for s in gen.codepoint_docs(ctx.rng(tag + '/cp'), ctx.thorough, 1500)]
     cases += [(s, t, sk) for s, sk in gen.name_neighbour_docs() for t in tols]
